@@ -64,6 +64,8 @@ def run(check: Check, repo: Repo, tier: str) -> None:
     T.row_alloc(check, repo)
     T.fragment_recursion_guard(check, repo, [m for m in repo.package_modules("validation") if ".custom" not in m.name])
     T.leaf_callback_wrap(check, repo)
+    T.collection_shapes(check, repo)
+    T.str_conversions(check, repo)
     from rules import language_rules as L
     L.escape_range(check, repo)
     L.escape_pairs(check, repo)
